@@ -66,7 +66,13 @@ func caseLess(a, b *caseT) bool {
 	if a.Peer != b.Peer {
 		return a.Peer < b.Peer
 	}
-	return a.Hex < b.Hex
+	if a.Hex != b.Hex {
+		return a.Hex < b.Hex
+	}
+	if a.Class != b.Class {
+		return a.Class < b.Class
+	}
+	return a.Desc < b.Desc
 }
 
 func primaryKind(k string) bool {
@@ -132,6 +138,11 @@ func finish(r *report.Run, us []*unit, results []*unitResult, deaths []deathRec,
 		for _, v := range res.Viols {
 			c := v.Case
 			gk := fmt.Sprintf("%s|%02x|%s|%s|%s|%s", c.Reactor, c.Ch, c.Msg, c.Field, c.Class, v.Oracle)
+			if c.Kind == "coupled" {
+				// a coupled group is one failure class per (message, field group, oracle): the mutation class of the
+				// signature is the one of the minimal failing case (the enumeration is exhaustive and deterministic)
+				gk = fmt.Sprintf("%s|%02x|%s|%s|%s|%s", c.Reactor, c.Ch, c.Msg, c.Field, "*coupled*", v.Oracle)
+			}
 			g := groups[gk]
 			if g == nil {
 				g = &vgroup{Reactor: c.Reactor, Msg: c.Msg, Field: c.Field, Class: c.Class, Oracle: v.Oracle, Ch: c.Ch, Kind: c.Kind, States: map[string]bool{}, Peers: map[string]bool{},
@@ -143,6 +154,9 @@ func finish(r *report.Run, us []*unit, results []*unitResult, deaths []deathRec,
 			g.Peers[c.Peer] = true
 			if caseLess(c, g.Case) {
 				g.Case, g.What = c, v.What
+				if c.Kind == "coupled" {
+					g.Class = c.Class
+				}
 			}
 		}
 	}
@@ -246,6 +260,75 @@ func finish(r *report.Run, us []*unit, results []*unitResult, deaths []deathRec,
 	}
 	subsumed := 0
 	var keys []string
+	// coupled groups against single-field groups of the same message and oracle: whichever fails in strictly
+	// more node states names the defect (a coupled group contains the single-field values); coupled groups
+	// over a subset of another coupled group's fields are folded into it
+	dropped := map[*vgroup]bool{}
+	fieldSet := func(g *vgroup) map[string]bool {
+		m := map[string]bool{}
+		for _, f := range strings.Split(g.Field, "+") {
+			m[f] = true
+		}
+		return m
+	}
+	covers := func(a, b *vgroup) bool { // a's node states and peers include b's
+		for s := range b.States {
+			if !a.States[s] {
+				return false
+			}
+		}
+		for s := range b.Peers {
+			if !a.Peers[s] {
+				return false
+			}
+		}
+		return true
+	}
+	var ckeys []string
+	for k, g := range groups {
+		if g.Kind == "coupled" {
+			ckeys = append(ckeys, k)
+		}
+	}
+	sort.Strings(ckeys)
+	for _, k := range ckeys {
+		g := groups[k]
+		k2 := g.Reactor + "|" + strings.SplitN(g.Msg, "(", 2)[0] + "|" + g.Oracle
+		fs := fieldSet(g)
+		for _, p := range prim[k2] {
+			if !fs[p.Field] {
+				continue
+			}
+			if covers(g, p) && len(g.States) > len(p.States) {
+				dropped[p] = true
+			} else {
+				dropped[g] = true
+			}
+		}
+	}
+	for _, k := range ckeys {
+		g := groups[k]
+		if dropped[g] {
+			continue
+		}
+		k2 := g.Reactor + "|" + strings.SplitN(g.Msg, "(", 2)[0] + "|" + g.Oracle
+		fs := fieldSet(g)
+		for _, q := range coupledPrim[k2] {
+			if q == g || dropped[q] {
+				continue
+			}
+			qs := fieldSet(q)
+			sub := len(fs) < len(qs)
+			for f := range fs {
+				if !qs[f] {
+					sub = false
+				}
+			}
+			if sub && covers(q, g) {
+				dropped[g] = true
+			}
+		}
+	}
 	// the same failure on several channel ids is one failure: keep the channel with the most node states
 	best := map[string]*vgroup{}
 	for _, g := range groups {
@@ -267,7 +350,11 @@ func finish(r *report.Run, us []*unit, results []*unitResult, deaths []deathRec,
 				continue
 			}
 		}
-		if g.Kind == "coupled" || !primaryKind(g.Kind) {
+		if dropped[g] {
+			subsumed++
+			continue
+		}
+		if !primaryKind(g.Kind) && g.Kind != "coupled" {
 			k2 := g.Reactor + "|" + strings.SplitN(g.Msg, "(", 2)[0] + "|" + g.Oracle
 			sub := false
 			// a coupled-group failure covers the pair failures over a subset of its fields
